@@ -245,6 +245,11 @@ def chain_body(rng, steps):
         if st[0] == "cond":
             plan.append(("in", st))
             plan.append(("condcall", st))
+        elif st[0] == "condelse":
+            # if input = 1 then call g else r |= c   (so that values can also shrink when the input flips)
+            plan.append(("in2", st))
+            plan.append(("elseconst", st))
+            plan.append(("condcall", st))
         else:
             plan.append((st[0], st))
     plan.append(("retr", None))
@@ -258,6 +263,12 @@ def chain_body(rng, steps):
         elif kind == "in":
             # value 0 -> skip the call (continuation after the conditional call), 1 -> the call
             nodes.append(node("in", st[1], st[2], 0, [idx[n + 2], idx[n + 1]]))
+        elif kind == "in2":
+            # value 0 -> the constant (next node), 1 -> the call (the node after it)
+            nodes.append(node("in", st[1], st[2], 0, [idx[n + 1], idx[n + 2]]))
+        elif kind == "elseconst":
+            # continue after the call node
+            nodes.append(node("orc", st[5], 0, 0, [idx[n + 2]]))
         elif kind == "condcall":
             nodes.append(node("orcall", st[3], st[4], 0, [nx]))
         elif kind == "retr":
@@ -265,7 +276,125 @@ def chain_body(rng, steps):
     return nodes
 
 
+def _edges_under(prog, inputs, j):
+    nodes = prog["fns"][j - 1]["nodes"]
+    out, n, steps = [], 1, 0
+    while steps < 200:
+        steps += 1
+        nd = nodes[n - 1]
+        if nd["op"] in ("ret", "retr"):
+            break
+        if nd["op"] == "in":
+            v = inputs[nd["a"] - 1][nd["b"] - 1]
+            n = nd["kids"][min(v, len(nd["kids"]) - 1)]
+        elif nd["op"] in ("orcall", "call"):
+            out.append(nd["a"])
+            n = nd["kids"][0]
+        else:
+            n = nd["kids"][0]
+    return out
+
+
+def _cycle_members(prog, inputs):
+    nfn = len(prog["fns"])
+    adj = {j: set(_edges_under(prog, inputs, j)) for j in range(1, nfn + 1)}
+    mem = set()
+    for j in adj:
+        seen, todo = set(), list(adj[j])
+        while todo:
+            g = todo.pop()
+            if g == j:
+                mem.add(j)
+                break
+            if g in seen:
+                continue
+            seen.add(g)
+            todo += list(adj.get(g, ()))
+    return frozenset(mem)
+
+
+def cycle_shape_changes(prog):
+    """True if flipping one input bit changes which functions lie on a cycle (a function joins or leaves a
+    cycle, a cycle appears or disappears) - the incremental situations the cycle machinery must get right."""
+    nin = len(prog["inputs"])
+    import itertools
+    seen = {}
+    for bits in itertools.product([0, 1], repeat=2 * nin):
+        inputs = [[bits[2 * i], bits[2 * i + 1]] for i in range(nin)]
+        seen[bits] = _cycle_members(prog, inputs)
+    for bits, mem in seen.items():
+        for k in range(len(bits)):
+            b2 = list(bits)
+            b2[k] ^= 1
+            m2 = seen[tuple(b2)]
+            if m2 != mem and mem and m2:
+                return True
+    return False
+
+
+def gen_fixshape_program(rng, kind="fix"):
+    """Template family: a ring of cycle functions plus a function that joins / leaves the cycle when an input bit
+    flips (conditional edge from a ring member, placed before or after its ring edge)."""
+    n = rng.choice([3, 3, 4])
+    k = rng.choice([2, n - 1]) if n > 3 else 2
+    nodesets = []
+    full = 15
+    steps = {j: [("orc", 1 << (j - 1))] for j in range(1, n + 1)}
+    for j in range(1, k + 1):
+        steps[j].append(("orcall", j % k + 1, full))
+    for j in range(k + 1, n + 1):
+        # joiners call into the ring (and maybe each other)
+        steps[j].append(("orcall", rng.randrange(k) + 1, full))
+        if rng.random() < 0.3 and j < n:
+            steps[j].append(("orcall", j + 1, full))
+    # conditional edges from ring members to joiners
+    for _ in range(rng.choice([1, 1, 2])):
+        src = rng.randrange(k) + 1
+        dst = rng.randrange(k + 1, n + 1)
+        f = rng.randrange(2) + 1
+        pos = rng.randrange(1, len(steps[src]) + 1)
+        if rng.random() < 0.6:
+            steps[src].insert(pos, ("condelse", 1, f, dst, full, rng.choice([1 << (n - 1), 1 << rng.randrange(4), 3])))
+        else:
+            steps[src].insert(pos, ("cond", 1, f, dst, full))
+    if rng.random() < 0.4:
+        j = rng.randrange(n) + 1
+        steps[j].insert(rng.randrange(1, len(steps[j]) + 1), ("cond", 1, rng.randrange(2) + 1, rng.randrange(n) + 1, rng.choice([full, 5, 10])))
+    fns = []
+    for j in range(1, n + 1):
+        kd = "fb" if kind == "fb" else rng.choice(["fix", "fix", "fix", "fixjoin"])
+        fns.append({"kind": kd, "init": 0 if kind == "fix" else rng.randrange(16), "fwd": 0, "nodes": chain_body(rng, steps[j])})
+    if rng.random() < 0.5:
+        fns.append({"kind": "plain", "init": 0, "fwd": 0, "nodes": chain_body(rng, [("orcall", rng.randrange(n) + 1, full)])})
+    return {"nv": 16, "inputs": [[[rng.randrange(2), 0], [rng.randrange(2), rng.choice([0, 0, 2])]]], "cells": [],
+            "fns": fns, "sfns": [], "ifns": [], "lru_cap": 2}
+
+
+def gen_fixshape_history(rng, prog, nops):
+    nfn = len(prog["fns"])
+    hist = []
+    for _ in range(nops):
+        r = rng.random()
+        if r < 0.3:
+            hist.append({"op": "set", "i": 1, "f": rng.randrange(2) + 1, "v": rng.randrange(2), "d": -1})
+        elif r < 0.34:
+            hist.append({"op": "synth", "d": rng.choice([0, 2])})
+        else:
+            hist.append({"op": "get", "f": rng.randrange(nfn) + 1})
+    return hist
+
+
 def gen_cycle_program(rng, family):
+    if family in ("fix", "fb"):
+        for _ in range(40):
+            p = gen_cycle_program1(rng, family)
+            if cycle_shape_changes(p) or rng.random() < 0.1:
+                return p
+        return p
+    return gen_cycle_program1(rng, family)
+
+
+def gen_cycle_program1(rng, family):
     """Programs for C12 (fix/fixjoin), C13 (fb), C14 (pcycle: plain functions that may form cycles), C15 (diverge)."""
     nin = rng.choice([1, 2])
     inputs = [[[rng.randrange(2), rng.choice([0, 0, 1, 2])], [rng.randrange(2), rng.choice([0, 0, 2])]] for _ in range(nin)]
@@ -287,7 +416,9 @@ def gen_cycle_program(rng, family):
                 for _ in range(rng.choice([1, 2, 2, 3])):
                     g = rng.choice(cyc + cyc + leaves) if leaves else rng.choice(cyc)
                     mask = rng.choice([full, full, full, 3, 5, 6])
-                    if rng.random() < 0.45:
+                    if rng.random() < 0.2:
+                        steps.append(("condelse", rng.randrange(nin) + 1, rng.randrange(2) + 1, g, mask, rng.randrange(full + 1)))
+                    elif rng.random() < 0.35:
                         steps.append(("cond", rng.randrange(nin) + 1, rng.randrange(2) + 1, g, mask))
                     else:
                         steps.append(("orcall", g, mask))
@@ -326,6 +457,44 @@ def gen_cycle_program(rng, family):
                 else:
                     steps.append(rng.choice([("orcall", g, full), ("cond", rng.randrange(nin) + 1, rng.randrange(2) + 1, g, full)]))
             fns.append({"kind": "plain", "init": 0, "nodes": chain_body(rng, steps)})
+        return {"nv": full + 1, "inputs": inputs, "cells": [], "fns": fns, "sfns": [], "ifns": [], "lru_cap": 2}
+    if family == "pcyclefix":
+        # fixpoint heads above functions without recovery whose backward calls are input-controlled (C14)
+        nfix = rng.choice([1, 1, 2])
+        nplain = rng.choice([2, 2, 3])
+        nfn = nfix + nplain
+        fns = []
+        for j in range(1, nfn + 1):
+            steps = [("orc", 1 << ((j - 1) % 3))]
+            if j <= nfix:
+                steps.append(("orcall", rng.randrange(nfix + 1, nfn + 1), full))
+                if rng.random() < 0.4:
+                    steps.append(("cond", rng.randrange(nin) + 1, rng.randrange(2) + 1, rng.randrange(nfn) + 1, full))
+                fns.append({"kind": "fix", "init": 0, "nodes": chain_body(rng, steps)})
+            else:
+                for _ in range(rng.choice([1, 2, 2])):
+                    g = rng.randrange(nfn) + 1
+                    if g <= nfix:
+                        steps.append(rng.choice([("orcall", g, full), ("cond", rng.randrange(nin) + 1, rng.randrange(2) + 1, g, full)]))
+                    else:
+                        steps.append(("cond", rng.randrange(nin) + 1, rng.randrange(2) + 1, g, full))
+                fns.append({"kind": "plain", "init": 0, "nodes": chain_body(rng, steps)})
+        return {"nv": full + 1, "inputs": inputs, "cells": [], "fns": fns, "sfns": [], "ifns": [], "lru_cap": 2}
+    if family == "diverge" and rng.random() < 0.5:
+        # nested variant: outer = NOT inner (under an input switch), inner = outer | (mid & 0), mid = inner (plain)
+        i2 = rng.randrange(nin) + 1
+        if rng.random() < 0.6:
+            # the cycle exists for both values of the switch: outer = inner (converges) / outer = NOT inner (diverges)
+            f_out = [node("in", 1, 1, 0, [2, 3]), node("call", 3, 0, 0, [5, 4]), node("call", 3, 0, 0, [4, 5]), node("ret", 1), node("ret", 0)]
+        else:
+            f_out = [node("in", 1, 1, 0, [2, 3]), node("ret", rng.randrange(2)), node("call", 3, 0, 0, [4, 5]), node("ret", 1), node("ret", 0)]
+        f_in = chain_body(rng, [("orcall", 2, full), ("orcall", 4, 0)])
+        f_mid = chain_body(rng, [("orcall", 3, full)])
+        f1 = chain_body(rng, [("orc", 4), ("orcall", 2, full)])
+        f5 = [node("in", i2, 2, 0, [2, 3]), node("ret", 0), node("ret", 1)]
+        fns = [{"kind": "plain", "init": 0, "nodes": f1}, {"kind": "fix", "init": 0, "nodes": f_out},
+               {"kind": "fix", "init": 0, "nodes": f_in}, {"kind": "plain", "init": 0, "nodes": f_mid},
+               {"kind": "plain", "init": 0, "nodes": f5}]
         return {"nv": full + 1, "inputs": inputs, "cells": [], "fns": fns, "sfns": [], "ifns": [], "lru_cap": 2}
     if family == "diverge":
         # f1 consumer of f2; f2 = if in(1,1)=1 then NOT f2 (never stabilises) else const; f3 unrelated; f4 convergent cycle
@@ -486,7 +655,7 @@ def gen_accchain_history(rng, prog, nops):
     return hist
 
 
-CYCLE_FAMILIES = ("fix", "fb", "pcycle", "diverge")
+CYCLE_FAMILIES = ("fix", "fb", "pcycle", "pcyclefix", "diverge")
 
 
 def gen_history(rng, prog, nops, family="core"):
@@ -553,6 +722,9 @@ def gen_jobs(seed, njobs, family, nops):
         if family == "reclaim":
             prog = gen_reclaim_program(rng)
             hist = gen_reclaim_history(rng, prog, nops)
+        elif family in ("fixshape", "fbshape"):
+            prog = gen_fixshape_program(rng, "fix" if family == "fixshape" else "fb")
+            hist = gen_fixshape_history(rng, prog, nops)
         elif family == "accchain":
             prog = gen_accchain_program(rng)
             hist = gen_accchain_history(rng, prog, nops)
@@ -572,8 +744,38 @@ def gen_par_jobs(seed, njobs, family, nrounds=3):
     rng = random.Random(seed)
     jobs = []
     base = {"pardag": "dur", "parfix": "fix", "parfb": "fb", "parpcycle": "pcycle", "parintern": "churn",
-            "parstruct": "struct", "parcancel": "dur", "parwrite": "dur", "parwritefix": "fix", "parcancelfix": "fix", "parpanic": "dur"}[family]
+            "parstruct": "struct", "parcancel": "dur", "parwrite": "dur", "parwritefix": "fix", "parcancelfix": "fix", "parpanic": "dur", "parmemo": "struct"}[family]
     for n in range(njobs):
+        if family == "parmemo":
+            # several tracked functions keyed on the same (fresh) struct instance, first executed concurrently
+            # the creator makes 1..4 structs depending on two input bits; every round adds a fresh instance
+            creator = [node("in", 1, 1, 0, [2, 3]), node("in", 1, 2, 0, [4, 5]), node("in", 1, 2, 0, [7, 10]),
+                       node("new", 0, 0, 1, [14]),
+                       node("new", 0, 0, 1, [6]), node("new", 1, 1, 0, [14]),
+                       node("new", 0, 0, 1, [8]), node("new", 1, 1, 0, [9]), node("new", 2, 0, 0, [14]),
+                       node("new", 0, 0, 1, [11]), node("new", 1, 1, 0, [12]), node("new", 2, 0, 0, [13]), node("new", 3, 1, 1, [14]),
+                       node("ret", 0)]
+            def user(m):
+                return [node("call", 1, 0, 0, [2, 2]), node("calls", m, 4, 0, [3, 3]), node("calls", m, 3, 0, [4, 4]),
+                        node("calls", m, 2, 0, [5, 5]), node("calls", m, 1, 0, [6, 7]), node("ret", 0), node("ret", 1)]
+            sf = lambda: [node("fld", 1, rng.randrange(3), 0, [2, 3, 2]), node("rv", 0, 0, 0, [4]), node("rv", 0, 0, 0, [5]), node("ret", 0), node("ret", 1)]
+            prog = {"nv": 2, "inputs": [[[0, 0], [0, 0]]], "cells": [],
+                    "fns": [{"kind": "plain", "init": 0, "fwd": 0, "nodes": creator}] +
+                           [{"kind": "plain", "init": 0, "fwd": 0, "nodes": user(m)} for m in (1, 2, 1, 2)],
+                    "sfns": [{"kind": "splain", "init": 0, "nodes": sf()}, {"kind": "splain", "init": 0, "nodes": sf()},
+                             {"kind": "sspec", "init": 0, "nodes": sf()}],
+                    "ifns": [{"kind": "iplain", "init": 0, "nodes": [node("ret", 0)]}], "lru_cap": 2}
+            rounds = []
+            for r in range(nrounds + 2):
+                cfgs = [(0, 0), (0, 1), (1, 0), (1, 1), (0, 0)]
+                a, b = cfgs[r % 5]
+                pre = [{"op": "set", "i": 1, "f": 1, "v": a, "d": -1}, {"op": "set", "i": 1, "f": 2, "v": b, "d": -1}, {"op": "get", "f": 1}]
+                nthreads = rng.choice([2, 3, 4])
+                threads = [[{"op": "get", "f": 2 + (t % 2)}, {"op": "get", "f": 2 + ((t + 1) % 2)}, {"op": "get", "f": 4 + (t % 2)}] for t in range(nthreads)]
+                rounds.append({"pre": pre, "threads": threads, "writer": [], "cancels": [], "writer_after": 0})
+            jobs.append({"id": n + 1, "prog": prog, "hist": [], "inject": 0, "seed": seed * 100003 + n, "mode": family,
+                         "rounds": rounds, "jitter": rng.choice([0, 0, 20, 100])})
+            continue
         if base in CYCLE_FAMILIES:
             prog = gen_cycle_program(rng, base)
         else:
